@@ -854,8 +854,8 @@ func ruleRaiseOnOwnState(c *Ctx) {
 		withClosures(fn, func(f *ssa.Function) {
 			allInstrs(f, func(in ssa.Instruction) {
 				sc := staticCallee(in)
-				if sc == nil || recvNamed(sc) != "LState" || !raisers[sc.Name()] {
-					return
+				if sc == nil || recvNamed(sc) != "LState" || !raisers[sc.Name()] || in.Parent() != f {
+					return // (a new helper's body is examined as the function it is, with its own first parameter)
 				}
 				n++
 				recv := in.(*ssa.Call).Call.Args[0]
@@ -1228,9 +1228,24 @@ func ruleClosedFirst(c *Ctx) {
 	const R = "R19-closed"
 	p := c.P
 	guard := p.Fn("lua", "errorIfFileIsClosed")
-	if guard == nil {
-		c.und(R, "closed-first:anchor", "-", "errorIfFileIsClosed not found")
+	closedF := p.Field("lua", "lFile", "closed")
+	if guard == nil && closedF == nil {
+		c.und(R, "closed-first:anchor", "-", "neither errorIfFileIsClosed nor lFile.closed found")
 		return
+	}
+	// the closed test: the guard helper, or the same test written in place (a branch on file.closed whose
+	// taken arm raises — the raising arm is pruned, so passing the branch is passing the test)
+	isClosedTest := func(in ssa.Instruction) bool {
+		if guard != nil && isCallTo(in, guard) {
+			return true
+		}
+		if iff, ok := in.(*ssa.If); ok && closedF != nil {
+			if _, ok := loadsField(iff.Cond, closedF); ok {
+				g := p.G(in.Parent())
+				return g.Cut[iff.Block().Succs[0]] >= 0
+			}
+		}
+		return false
 	}
 	for _, name := range []string{"fileWriteAux", "fileReadAux", "fileFlushAux", "fileSetVBuf", "fileLines", "fileSeek"} {
 		fn := p.Fn("lua", name)
@@ -1238,7 +1253,7 @@ func ruleClosedFirst(c *Ctx) {
 			continue
 		}
 		g := p.G(fn)
-		okc, witness := g.MustPassBefore(fn.Blocks[0], 0, func(in ssa.Instruction) bool { return isCallTo(in, guard) }, isReturn)
+		okc, witness := g.MustPassBefore(fn.Blocks[0], 0, isClosedTest, isReturn)
 		pos := p.pos(fn.Pos())
 		if witness != nil {
 			pos = p.ipos(witness)
